@@ -142,5 +142,29 @@ func (it *Generator) Close() (Object, error) {
 	return nil, NotImplementedError
 }
 
+// StopIterationValue returns the value carried by err, which must be
+// a StopIteration (the class, an instance or an ExceptionInfo) - this
+// is the first argument of the exception or None if there is none.
+//
+// It is the result of a "yield from" expression when the sub iterator
+// finishes.
+func StopIterationValue(err error) Object {
+	var exc *Exception
+	switch e := err.(type) {
+	case ExceptionInfo:
+		exc, _ = e.Value.(*Exception)
+	case *ExceptionInfo:
+		exc, _ = e.Value.(*Exception)
+	case *Exception:
+		exc = e
+	}
+	if exc != nil {
+		if args, ok := exc.Args.(Tuple); ok && len(args) > 0 {
+			return args[0]
+		}
+	}
+	return None
+}
+
 // Check interface is satisfied
 var _ I_generator = (*Generator)(nil)
